@@ -382,7 +382,7 @@ fn handle(req: &Request) -> String {
   j.kv_num("freeing_collections", counters.freeing_collections);
   j.kv_num("last_freeing_ordinal", counters.last_freeing_ordinal);
   j.kv_arr_begin("ordinals");
-  for o in counters.collect_ordinals.iter().take(256) {
+  for o in counters.collect_ordinals.iter().take(4096) {
     j.el_num(*o);
   }
   j.end_arr();
@@ -438,6 +438,9 @@ fn main() {
       .location()
       .map(|l| format!("{}:{}", l.file(), l.line()))
       .unwrap_or_default();
+    if std::env::var_os("LYWORKER_BACKTRACE").is_some() {
+      eprintln!("panic: {msg} @ {loc}\n{}", std::backtrace::Backtrace::force_capture());
+    }
     if let Ok(mut slot) = PANIC_INFO.lock() {
       // keep the first panic of a request
       if slot.is_none() {
